@@ -248,6 +248,12 @@ func (ms *MatrixSetup) UnmarshalOrdered(o any) error {
 		// marshalled to JSON. There are no dimensions to add.
 		return nil
 	}
+	if m, isMap := o.(*ordered.MapSA); isMap && m.Len() == 0 {
+		// `setup: {}`, which is how a matrix without any setup dimensions is
+		// marshalled to YAML. Keep the zero value, so that both forms parse
+		// to the same thing (and sign to the same payload).
+		return nil
+	}
 	if *ms == nil {
 		*ms = make(MatrixSetup)
 	}
